@@ -510,6 +510,18 @@ def check_C10(tier, seed, replay):
         require=("OptFail", "CloStop", "AltFail", "NegFail", "PosFail", "NegOk", "PosOk", "LrSeed", "MemoHit"),
         assumptions=["the set of attempts that really failed is recorded by hook H2 (ParseState::report_error); which of "
                      "them lie inside a lookahead is taken from the specification's run of the same case"])
+    if tier == "thorough" and not replay:
+        # optional strengthening: the lattice lemma behind FurthestFail, for unbounded histories (TLAPS)
+        import re
+        import subprocess
+        try:
+            p_ = subprocess.run(["tlapm", "--threads", "8", "--cleanfp", "ErrorRegister.tla"], cwd=os.path.join(vlib.SPEC, "proofs"),
+                                stdout=subprocess.PIPE, stderr=subprocess.STDOUT, text=True, timeout=600)
+            m = re.search(r"All (\d+) obligations? proved", p_.stdout)
+            res.coverage["tlaps_error_register"] = ({"obligations": int(m.group(1)), "proved": int(m.group(1))} if m
+                                                    else {"failed": p_.stdout[-400:]})
+        except Exception as ex:  # noqa
+            res.coverage["tlaps_error_register"] = {"not_run": str(ex)[:200]}
     return res
 
 
